@@ -357,14 +357,27 @@ class Program:
                     ops.append({"op": "with", "body": body})
                 else:
                     ops.extend(record_ops(rng.choice([0, 1, 2, 4, 6])))
+                    if rng.random() < 0.25:
+                        # the worklist is a list: a user may edit records in place between saves
+                        e = rng.choice([{"op": "set_record", "index": rng.randrange(50), "record": rng.choice(["C;edited", "W2;", "F;"])},
+                                        {"op": "del_record", "index": rng.randrange(50)}])
+                        ops.append(e)
+                        sess.step(e)
                     name = rng.choice(GOOD_NAMES + [main, main])
                     if rng.random() < 0.3:
                         ops.append({"op": "prewrite", "file": name, "prestate": rng.choice(["empty", "shorter", "longer", "equalish", "torn"])})
                     ops.append({"op": "save", "file": name, "path_kind": rng.choice(["str", "Path"])})
-                    if rng.random() < 0.3:
+                    r2 = rng.random()
+                    if r2 < 0.3:
                         ops.append({"op": "clear"})
                         sess.wl.clear()
                         ops.extend(record_ops(rng.choice([0, 1])))
+                        ops.append({"op": "save", "file": name, "path_kind": rng.choice(["str", "Path"])})
+                    elif r2 < 0.5:
+                        # same number of records, other content, saved again to the same name
+                        e = {"op": "set_record", "index": rng.randrange(50), "record": rng.choice(["C;second version", "W3;", "B;"])}
+                        ops.append(e)
+                        sess.step(e)
                         ops.append({"op": "save", "file": name, "path_kind": rng.choice(["str", "Path"])})
                 if rng.random() < 0.15:
                     ops.append({"op": "save", "file": rng.choice(BAD_NAMES), "path_kind": rng.choice(["str", "Path"]), "expect": "refuse"})
